@@ -221,6 +221,7 @@ impl<'a> World<'a> {
 
     pub fn op_update(&mut self, spec: UpdateSpec) -> bool {
         if self.has_pending_op_on(spec.target) {
+            if !self.second_op_on_uncommitted_target { self.second_op_kind = format!("{}-then-update", self.pending_op_kind_on(spec.target).unwrap_or("op")); }
             self.second_op_on_uncommitted_target = true;
             self.rep.count("second_ops_on_uncommitted_target");
         }
@@ -245,6 +246,7 @@ impl<'a> World<'a> {
 
     pub fn op_delete(&mut self, target: u64) -> bool {
         if self.has_pending_op_on(target) {
+            if !self.second_op_on_uncommitted_target { self.second_op_kind = format!("{}-then-delete", self.pending_op_kind_on(target).unwrap_or("op")); }
             self.second_op_on_uncommitted_target = true;
             self.rep.count("second_ops_on_uncommitted_target");
         }
@@ -490,6 +492,7 @@ pub fn exec_op(w: &mut World<'_>, cfg: &HistCfg, op: &Value) -> bool {
         "create" => w.op_create(),
         "put" => {
             let spec = put_from_json(op);
+            if let Ok(p) = std::env::var("MVDRIVE_DUMP_PUT") { let _ = std::fs::write(p, &spec.payload); }
             w.note(json!({"class": spec.class, "len": spec.payload.len()}));
             w.op_put(spec)
         }
@@ -563,6 +566,44 @@ fn finish_history(w: &mut World<'_>) {
         match Memvid::open_read_only(&w.path) {
             Ok(m) => { w.mem = Some(m); let _ = w.check_all("final, read-only handle", true); }
             Err(e) => w.violation(&format!("C01:open-read-only-failed:{}", err_kind(&e)), format!("open_read_only failed on a committed file: {e}")),
+        }
+    }
+}
+
+/// The four ways two operations can meet on one frame before a commit (update/delete x update/delete), each as its own
+/// tiny history: put A, put B, commit, first op on A, second op on A, commit, compare, reopen, compare. Random histories
+/// reach these combinations rarely; which of them misbehave on the unchanged tree is recorded per combination.
+pub fn second_op_matrix(rep: &mut Report, dir: &std::path::Path, mut rng: Rng, cfg: &HistCfg) {
+    for (first, second) in [("update", "update"), ("update", "delete"), ("delete", "update"), ("delete", "delete")] {
+        for with_payload in [false, true] {
+            let d = dir.join(format!("m-{first}-{second}-{with_payload}"));
+            let _ = std::fs::create_dir_all(&d);
+            let mut w = World::new(&d, "mem.mv2", rng.fork(), rep);
+            w.rep.eval();
+            let mk = |w: &mut World<'_>, kind: &str, with_payload: bool| -> Value {
+                if kind == "delete" { json!({"op": "delete", "target": 0}) } else {
+                    let token = w.next_token();
+                    json!({"op": "update", "target": 0, "gen": if with_payload { Some(w.rng.next()) } else { None }, "token": token, "title": "second-op matrix"})
+                }
+            };
+            let mut ok = exec_op(&mut w, cfg, &json!({"op": "create"}));
+            for i in 0..2 {
+                if !ok { break; }
+                let token = w.next_token();
+                ok = exec_op(&mut w, cfg, &json!({"op": "put", "text": format!("matrix document {i} {token} zorvex"), "token": token, "uri": format!("mv2://matrix/Doc{i}"), "ts": 1_700_000_000 + i as i64}));
+            }
+            ok = ok && exec_op(&mut w, cfg, &json!({"op": "commit"}));
+            if ok {
+                let a = mk(&mut w, first, with_payload);
+                ok = exec_op(&mut w, cfg, &a);
+                let b = mk(&mut w, second, with_payload);
+                // the second call may be refused (that is fine); if it is acknowledged it has to take effect
+                ok = ok && exec_op(&mut w, cfg, &b);
+                w.rep.count(&format!("second_op_matrix[{first}-then-{second}]"));
+            }
+            if ok { finish_history(&mut w); }
+            w.mem = None;
+            let _ = std::fs::remove_dir_all(&d);
         }
     }
 }
